@@ -272,14 +272,14 @@ theorem C01_fixed_F03 : (stepA Cfg.patched fList false (.lInsert 0 0 (.atom (.in
 theorem C01_fixed_F03_negative :
     (stepA Cfg.patched fList false (.setItem 0 (.i (-1)) (veDict []))).forest.wf = true := by decide
 
-/-- F33: on the unpatched tree the dict removed by `del l[0]` still believes that `l` is its
+/-- F78: on the unpatched tree the dict removed by `del l[0]` still believes that `l` is its
 parent, so offering `l` to it is flagged as diverging (the real call never returns); on the
 patched tree the removed dict is detached and the same call is admissible and well-formed. -/
-theorem C01_counterexample_F33 :
+theorem C01_counterexample_F78 :
     divergent (stepA Cfg.pinned fList true (.delItem 0 (.i 0))).forest (.setItem 1 (.s 0) (.ref 0)) = true := by
   decide
 
-theorem C01_fixed_F33 :
+theorem C01_fixed_F78 :
     let f := (stepA Cfg.patched fList true (.delItem 0 (.i 0))).forest
     divergent f (.setItem 1 (.s 0) (.ref 0)) = false ∧
       (stepA Cfg.patched f true (.setItem 1 (.s 0) (.ref 0))).forest.wf = true := by decide
@@ -290,8 +290,8 @@ def fNest : Forest := (stepA Cfg.patched Forest.empty true (.new (veDict [(.s 0,
 theorem C01_counterexample_F30 :
     (stepA Cfg.patched fNest true (.setItem 1 (.s 1) (.ref 0))).out = .diverges := by decide
 
-/-- F32 (known): `l.insert(0, l[0])` puts one node object in two places. -/
-theorem C01_counterexample_F32 :
+/-- F79 (known): `l.insert(0, l[0])` puts one node object in two places. -/
+theorem C01_counterexample_F79 :
     Admissible Cfg.patched fList true (.lInsert 0 0 (.ref 1)) = false ∧
       (stepA Cfg.patched fList true (.lInsert 0 0 (.ref 1))).forest.aliased = true := by decide
 
